@@ -2,8 +2,8 @@
 """Regenerates MANIFEST.json from the table below (single source of truth for check registration)."""
 import json, os
 
-BASELINE_OFF = ("cd /repo && cargo nextest run --workspace --no-fail-fast --test-threads 8 --offline "
-                "|| (cd /repo && cargo test --workspace --no-fail-fast --offline)")
+BASELINE_OFF = ("cd /repo && RUSTUP_TOOLCHAIN=1.88.0 cargo nextest run --workspace --no-fail-fast --test-threads 8 --offline "
+                "|| (cd /repo && RUSTUP_TOOLCHAIN=1.88.0 cargo test --workspace --no-fail-fast --offline)")
 
 # id -> (technique, level text, level note, design ref)
 CHECKS = {}
